@@ -94,7 +94,7 @@ class Tape:
     # ------------------------------------------------------------------ construction
     def _add(self, kind, parents, params, const):
         vals = [self.nodes[p].val for p in parents]
-        val = self._forward(kind, vals, params)
+        val = np.asarray(self._forward(kind, vals, params), dtype=np.float64)
         n = Node(len(self.nodes), kind, tuple(parents), params, val, const)
         n.born = self.clock
         n.nondiff = self._is_nondiff(kind, vals, params, val)
@@ -131,9 +131,9 @@ class Tape:
         if kind == "gather":
             return v[0].ravel()[p["ids"]] if v[0].size else np.zeros(p["ids"].shape)
         if kind == "scatter":
-            out = v[0].copy()
-            out.ravel()[p["ids"].ravel()] = v[1].ravel()
-            return out
+            flat = v[0].reshape(-1).copy()
+            flat[p["ids"].ravel()] = v[1].ravel()
+            return flat.reshape(v[0].shape)
         if kind == "reduce":
             fn, axis, kd = p["fn"], p["axis"], p["keepdims"]
             ax = None if axis is None else (tuple(axis) if isinstance(axis, (list, tuple)) else axis)
@@ -215,10 +215,10 @@ class Tape:
             return [z.reshape(v[0].shape)]
         if kind == "scatter":
             ids = p["ids"].ravel()
-            g0 = g.copy()
-            g0.ravel()[ids] = 0
-            # g0.ravel() is a view for contiguous copies
-            return [g0, g.ravel()[ids].reshape(v[1].shape)]
+            flat = g.reshape(-1).copy()
+            picked = flat[ids].reshape(v[1].shape)
+            flat[ids] = 0
+            return [flat.reshape(g.shape), picked]
         if kind == "reduce":
             a = v[0]
             fn = p["fn"]
@@ -465,12 +465,17 @@ class Tape:
             if n.kind in ("leaf", "opaque"):
                 vals[i] = overrides.get(i, n.val)
             else:
-                vals[i] = self._forward(n.kind, [vals[q] for q in n.parents], n.params)
+                vals[i] = np.asarray(self._forward(n.kind, [vals[q] for q in n.parents], n.params), dtype=np.float64)
         return vals[upto]
 
     def check_against_fd(self, root, h=1e-6, rtol=2e-4, atol=2e-6, max_elems=64):
         """central finite differences on the non-constant leaves upstream of root.
         Ignores `severed` (validates the VJP rules themselves).  Returns list of problems."""
+        need = self.upstream(root, stop_at_severed=False, through_const=True)
+        for i in need:
+            n = self.nodes[i]
+            if n.const and n.parents and any(not self.nodes[q].const for q in n.parents):
+                return []  # a forced-constant result cuts the gradient: FD would not see the cut
         saved = [(n, n.severed) for n in self.nodes]
         for n, _ in saved:
             n.severed = False
